@@ -34,7 +34,7 @@ pub fn framing_scripts(rng: &mut Rng, nh: usize, allow_lists: bool) -> Vec<Scrip
                     emit.push(v);
                 }
             }
-            Script { id: i as u32, omnivore: true, tolerant: rng.chance(1, 4), headers: (0..nhd).map(|_| *rng.pick(RESP_HEADERS)).collect(), emit, ..Default::default() }
+            Script { id: i as u32, omnivore: true, tolerant: rng.chance(1, 4), finish_each: rng.chance(1, 5), headers: (0..nhd).map(|_| *rng.pick(RESP_HEADERS)).collect(), emit, ..Default::default() }
         })
         .collect()
 }
